@@ -84,6 +84,7 @@ func DebugTerms(pkg, fn string, wasm bool) {
 		return
 	}
 	tb := NewTB(w)
+	NewEffects(tb)
 	var fns []*ssa.Function
 	for _, f := range w.ModuleFuncs() {
 		if fnPkgPath(f) == pkg && (fn == "*" || f.Name() == fn || FuncName(f) == fn) {
